@@ -182,6 +182,10 @@ def check_case(case, acc):
             d2 = D.copy()
             d2.index = ix
             variants.append((f"index {nm}", d2, None, True))
+        for nm in ("x", "y", "f", "lv", "np"):  # a *named* index: the name equals a used column / a caller name
+            d2 = D.copy()
+            d2.index = pd.Index([7, 3, 11, 0, 5, 2, 9, 1][:n], name=nm)
+            variants.append((f"index named {nm!r}", d2, None, True))
         d2 = D.iloc[[3, 0, 2, 1, 4, 7, 6, 5]]  # permuted rows keeping their old labels
         variants.append(("rows [3,0,2,1,4,7,6,5] with the original labels kept", d2, [3, 0, 2, 1, 4, 7, 6, 5], False))
     else:
@@ -191,6 +195,11 @@ def check_case(case, acc):
             variants.append((f"column order {order}", D[order], None, True))
             variants.append((f"column order {order[::-1]}", D[order[::-1]], None, True))
         extra = {"allnan": np.nan, "objs": [[1], {"a": 2}, None, (3,), "s", 1.5, b"b", [2]], "center": list("abcdefgh"), "np": np.arange(8.0)}
+        # unused columns named like the string literals of the pool's calls (T(f, 'c'), S(f, 'a'), binary(f, 'b')), with missing values
+        d2 = D.copy()
+        for c in ("a", "b", "c"):
+            d2[c] = [np.nan, 1.0] * 4
+        variants.append(("extra unused columns named a, b, c (with NaN)", d2, None, True))
         for r in range(1, 5):
             for sub in itertools.combinations(extra, r):
                 d2 = D.copy()
